@@ -10,6 +10,7 @@ CONSTANTS
   RenderFails = FALSE
   CacheMisses = TRUE
   VerBumps = TRUE
+  Forges = TRUE
   FailKinds = {"fnerror1", "fatal2", "reqlabel2"}
 VIEW view
 ACTION_CONSTRAINT Emit
